@@ -1,0 +1,12 @@
+//go:build !verif
+// +build !verif
+
+package encoder
+
+// Verification hooks (see verif_on.go). With the verif build tag off they are empty and inlined away.
+
+func VerifPtrs(_ *RuntimeContext) {}
+
+func VerifSlot(_ uintptr, _ uint32) {}
+
+func VerifCodeSet(_ uintptr, _ *OpcodeSet) {}
